@@ -22,6 +22,10 @@ type Case struct {
 	// Ptr (negative cases): the value handed over is a pointer to a geometry - *geom.Point, *geom.LineString,
 	// *geom.Polygon are geometry types of their own (value-receiver methods), and none of the five; 1-3: non-nil, 4-6: nil
 	Ptr int `json:"ptr,omitempty"`
+	// Junk (round 13): before the call that is judged, Encode is called with a value outside the property's domain - a
+	// line, multi-line, polygon or multi-polygon with a NaN or infinite coordinate (1-4), or a type it has to refuse (5);
+	// whatever those calls return is not judged, but they must not change what the next call does
+	Junk int `json:"junk,omitempty"`
 }
 
 var five = []string{"Point", "LineString", "MultiLineString", "Polygon", "MultiPolygon"}
@@ -40,6 +44,9 @@ func gen(t *rapid.T) Case {
 		}
 	}
 	c.G = vkit.GenGJ(t, o)
+	if rapid.IntRange(0, 2).Draw(t, "junkfirst") == 0 {
+		c.Junk = rapid.IntRange(1, 5).Draw(t, "junk")
+	}
 	return c
 }
 
@@ -221,6 +228,24 @@ func run(c Case) (v vkit.Verdict) {
 	}()
 
 	v.Class(c.G.T)
+	if c.Junk != 0 {
+		v.Class("after_a_call_outside_the_domain")
+		nan, inf := math.NaN(), math.Inf(1)
+		var j geom.Geom
+		switch c.Junk {
+		case 1:
+			j = geom.LineString{{X: 1, Y: 2}, {X: nan, Y: 4}}
+		case 2:
+			j = geom.MultiLineString{{{X: 1, Y: 2}, {X: 3, Y: inf}}}
+		case 3:
+			j = geom.Polygon{{{X: 0, Y: 0}, {X: 1, Y: -inf}, {X: 0, Y: 1}}}
+		case 4:
+			j = geom.MultiPolygon{{{{X: 0, Y: 0}, {X: 1, Y: 0}, {X: nan, Y: nan}}}}
+		default:
+			j = geom.MultiPoint{{X: 1, Y: 2}}
+		}
+		vkit.Catch(func() { wkt.Encode(j) })
+	}
 	if c.Neg {
 		v.Class("negative")
 		var b []byte
@@ -296,7 +321,8 @@ func TestProp(t *testing.T) {
 			"independent recursive-descent parser of the OGC WKT grammar (keyword, balanced parentheses, comma-separated 'x y' pairs, numeric literal syntax checked " +
 			"before strconv.ParseFloat) must accept the text and yield the same type, nesting and float64 values (==). Non-trivial = multi-geometry with >=2 members or " +
 			"polygon with >=2 rings. Distinct by case hash." +
-			" Round 12: a quarter of the negative cases hand over a pointer to a geometry (*Point, *LineString, *Polygon; nil or not).",
+			" Round 12: a quarter of the negative cases hand over a pointer to a geometry (*Point, *LineString, *Polygon; nil or not)." +
+			" Round 13: a third of the cases are preceded by an Encode call outside the domain (a non-finite coordinate in each of the four non-point types, or a refused type), whose own result is not judged.",
 		Assumptions: []string{"lower-case 'e' exponents are accepted as OGC approximate numeric literals"},
 		Gen:         gen,
 		Run:         run,
